@@ -411,6 +411,26 @@ func runC16(c *core.Ctx) {
 		if encrypted_leaseset.VerifyBlindedSignature(bdest, dest, other) {
 			c.Violate("encrypted_leaseset.VerifyBlindedSignature", "accepts-other-secrets-factor", gen.Shape{"sig": st}, enc, "")
 		}
+		// the result is a function of the secret's CONTENT: the caller refills the same buffer with
+		// another secret and blinds again for the same day (and the same destination) right away
+		copy(secret, r.Bytes(len(secret)))
+		if bd2, err := encrypted_leaseset.CreateBlindedDestination(dest, secret, day.Add(3*time.Hour)); err == nil {
+			b2, _ := bd2.Bytes()
+			if alpha2, err := rm.BlindingFactor(secret, rm.BlindingDate(day)); err == nil {
+				if want, err := rm.BlindKey(key.Pub, alpha2); err == nil && len(b2) >= 384 && !bytes.Equal(want, b2[352:384]) {
+					c.Violate("encrypted_leaseset.CreateBlindedDestination", "differs-from-independent-derivation", gen.Shape{"sig": st, "class": "secret-buffer-refilled"}, enc,
+						fmt.Sprintf("after the caller refilled the secret's buffer: blinded key %x, independent derivation for the new secret %x (for the old one %x)", b2[352:384], want, first[352:384]))
+				}
+				if bd2p, _, err := destination.ReadDestination(b2); err == nil && !encrypted_leaseset.VerifyBlindedSignature(bd2p, dest, alpha2) {
+					c.Violate("encrypted_leaseset.VerifyBlindedSignature", "rejects-derived-factor", gen.Shape{"sig": st, "class": "secret-buffer-refilled"}, enc, "")
+				}
+			}
+			c.Bucket("blinding/secret-buffer-refilled")
+		}
+		// the destination that was blinded is what it was
+		if after, err := dest.Bytes(); err != nil || !bytes.Equal(after, enc) {
+			c.Violate("encrypted_leaseset.CreateBlindedDestination", "blinding-changed-the-original-destination", sh, enc, "")
+		}
 		// short secrets are refused
 		for _, ln := range []int{0, 1, 16, 31} {
 			if _, err := encrypted_leaseset.CreateBlindedDestination(dest, r.Bytes(ln), day); err == nil {
